@@ -252,7 +252,8 @@ before `notifySpends`); `dequeueAtHeight` defers with `<` and takes with `==` (t
 `scanFromHeight` makes a fresh reporter, fails the remaining requests on every error path (and, after the dequeue, the
 just-dequeued ones with `failRequests`: `failNew`), and ends with
 `NotifyUnspentAndUnfound` (`scan`); `notifyRequests` forgets the outpoint in all three maps before it delivers (one
-`Entry` list); a nil initial report does not overwrite a recorded one (`mergeInit`, the F5 repair); `deliver` is a
+`Entry` list) and the watch list is rebuilt from the per-outpoint map `outpoints` (one entry per watched outpoint: the
+key list of the `Entry` list); a nil initial report does not overwrite a recorded one (`mergeInit`, the F5 repair); `deliver` is a
 non-blocking send on a channel of capacity 1 and `Result` returns the cached result before it selects (`ReqObj`). -/
 theorem C10_source_facts :
     Gen.Utxo.processBlockSteps = ["b.addNewRequests", "b.findInitialTransactions", "b.notifySpends"] ∧
@@ -264,6 +265,7 @@ theorem C10_source_facts :
       "s.cfg.GetBlock", "failRequests", "reporter.FailRemaining", "failRequests", "reporter.FailRemaining",
       "reporter.ProcessBlock", "reporter.NotifyProgress",
       "s.cfg.BestSnapshot", "reporter.FailRemaining", "reporter.NotifyUnspentAndUnfound"] ∧
+    Gen.Utxo.watchListSources = ["b.outpoints"] ∧
     Gen.Utxo.notifyRequestsSeq = ["delete b.requests", "delete b.initialTxns", "delete b.outpoints", "deliver"] ∧
     Gen.Utxo.initialKeepsNonNil = true ∧
     Gen.Utxo.deliverNonBlocking = true ∧
